@@ -254,6 +254,17 @@ func vhResume(sk int, _ string) {
 				vAssert(len(snap.Goroutines) == sp.gor[found], "each snapshot holds exactly the goroutines of its dump")
 			}
 			found++
+			// C03: every snapshot returned can be aggregated at every level
+			if !snap.IsRace() {
+				for lvl := ExactFlags; lvl <= AnyValue; lvl++ {
+					a := snap.Aggregate(lvl)
+					total := 0
+					for _, b := range a.Buckets {
+						total += len(b.IDs)
+					}
+					vAssert(total == len(snap.Goroutines), "a scanned snapshot aggregates without loss at every level")
+				}
+			}
 		}
 		if err != nil {
 			w.buf = append(w.buf, suffix...)
